@@ -81,7 +81,11 @@ func (g *sgen) trafficProg() string {
 				hops = append(hops, fmt.Sprintf("readfrom:%d:eof", n), "flush")
 			}
 		case 11:
-			hops = append(hops, "asyncwrite:"+g.payload(g.size()))
+			if g.r.Intn(3) == 0 {
+				hops = append(hops, "asyncwritev:"+g.payload(1+g.r.Intn(30))+","+g.payload(1+g.r.Intn(30)))
+			} else {
+				hops = append(hops, "asyncwrite:"+g.payload(g.size()))
+			}
 		}
 	}
 	ret := "none"
@@ -141,6 +145,9 @@ func (g *sgen) stream(id int, faults bool) {
 	wbc := g.r.Pick(0, 1024, 2048)
 	proto := g.r.Pick(0, 0, 0, 1)
 	g.emit(fmt.Sprintf("newloop %s %d %d %d %s", []string{"lt", "et", "et"}[mode], chunk, g.rbc, wbc, []string{"unix", "tcp"}[proto]))
+	if g.r.Intn(4) == 0 { // the poller's overflow path (low-priority tasks are shunted to the second queue) within reach
+		g.emit(fmt.Sprintf("threshold %d", g.r.Pick(0, 1, 2, 3)))
+	}
 	open := "ret:none"
 	switch g.r.Intn(4) {
 	case 0:
@@ -240,7 +247,16 @@ func (g *sgen) stream(id int, faults bool) {
 			}
 		case 6:
 			if cid != "" {
-				switch g.r.Intn(4) {
+				switch g.r.Intn(5) {
+				case 4:
+					// a burst of asynchronous writes of both kinds issued by one goroutine: carried out in issue order
+					for k := 0; k < 2+g.r.Intn(4); k++ {
+						if g.r.Intn(2) == 0 {
+							g.emit(fmt.Sprintf("async %s writev %s,%s", cid, g.payload(1+g.r.Intn(20)), g.payload(1+g.r.Intn(20))))
+						} else {
+							g.emit(fmt.Sprintf("async %s write %s", cid, g.payload(1+g.r.Intn(20))))
+						}
+					}
 				case 0, 1:
 					g.emit(fmt.Sprintf("async %s write %s", cid, g.payload(g.size())))
 				case 2:
